@@ -15,6 +15,12 @@ theorem tie_h_params_nodeExecute : Extracted.Params.h_params_nodeExecute = Canon
 theorem tie_h_params_newCommand : Extracted.Params.h_params_newCommand = Canon.Params.h_params_newCommand := by decide +kernel
 theorem tie_h_params_NewExecutionGraphForRetry : Extracted.Params.h_params_NewExecutionGraphForRetry = Canon.Params.h_params_NewExecutionGraphForRetry := by decide +kernel
 theorem tie_h_params_nodeSetupExec : Extracted.Params.h_params_nodeSetupExec = Canon.Params.h_params_nodeSetupExec := by decide +kernel
+theorem tie_h_rest_params_dag_parser_go : Extracted.Params.h_rest_params_dag_parser_go = Canon.Params.h_rest_params_dag_parser_go := by decide +kernel
+theorem tie_h_rest_params_persistence_model_status_go : Extracted.Params.h_rest_params_persistence_model_status_go = Canon.Params.h_rest_params_persistence_model_status_go := by decide +kernel
+theorem tie_h_rest_params_cmd_start_go : Extracted.Params.h_rest_params_cmd_start_go = Canon.Params.h_rest_params_cmd_start_go := by decide +kernel
+theorem tie_h_rest_params_cmd_retry_go : Extracted.Params.h_rest_params_cmd_retry_go = Canon.Params.h_rest_params_cmd_retry_go := by decide +kernel
+theorem tie_h_rest_params_cmd_restart_go : Extracted.Params.h_rest_params_cmd_restart_go = Canon.Params.h_rest_params_cmd_restart_go := by decide +kernel
+theorem tie_h_rest_params_dag_scheduler_node_go : Extracted.Params.h_rest_params_dag_scheduler_node_go = Canon.Params.h_rest_params_dag_scheduler_node_go := by decide +kernel
 
 #print axioms tie_h_params_parseParamValue
 #print axioms tie_h_params_stringifyParam
@@ -28,5 +34,11 @@ theorem tie_h_params_nodeSetupExec : Extracted.Params.h_params_nodeSetupExec = C
 #print axioms tie_h_params_newCommand
 #print axioms tie_h_params_NewExecutionGraphForRetry
 #print axioms tie_h_params_nodeSetupExec
+#print axioms tie_h_rest_params_dag_parser_go
+#print axioms tie_h_rest_params_persistence_model_status_go
+#print axioms tie_h_rest_params_cmd_start_go
+#print axioms tie_h_rest_params_cmd_retry_go
+#print axioms tie_h_rest_params_cmd_restart_go
+#print axioms tie_h_rest_params_dag_scheduler_node_go
 
 end BdModel.Tie.Params
